@@ -153,6 +153,16 @@ def copy_val(v):
         a=Agg(v.ty,[copy_val(x) for x in v.f],v.variant,v.vname); a.ghost=v.ghost; return a
     return v
 
+BYTE_INFO={}
+def allowed(x):
+    """set of byte values a symbolic byte term is known to range over (hex digits, decimal digits ...) or None"""
+    if isinstance(x,int): return frozenset([x])
+    try: return BYTE_INFO.get(x.get_id())
+    except Exception: return None
+def note_allowed(x,vals):
+    if not isinstance(x,int): BYTE_INFO[x.get_id()]=frozenset(vals)
+    return x
+
 def bterm(x):
     return z3.BitVecVal(x,8) if isinstance(x,int) else x
 
